@@ -174,6 +174,27 @@ without the wrap of the short branch, kept as the `old61` witness) and transfer 
 reals the two are equal on in-bounds inputs for every space; they differ only in what IEEE rounding does at +pi. -/
 @[reducible] def interpolateFix61 : Space α → St α → St α → α → St α := interpolateW so2InterpFix so2Wrap
 
+/-- The gluing applied after the cylinder branch of MobiusStateSpace::interpolate (notes/C07-fix-F159.diff):
+`CompoundStateSpace::interpolate(from, to, t, state); if (std::abs(theta2 - state.getU()) > pi) state.setV(-state.getV())`.
+Rounding can carry u onto the seam, where the SO(2) clause wraps it to the other side; v is then mirrored, as the seam
+branch does.  `postMobius sp from to res` walks the space and applies this to every Mobius component of `res`
+(cylinder branch only: `|to.u - from.u| <= pi`); over the reals it is the identity on interpolation results. -/
+def postMobius : Space α → St α → St α → St α → St α
+  | .ccons _ h tl, .ccons ah at', .ccons bh bt, .ccons rh rt =>
+    .ccons (postMobius h ah bh rh) (postMobius tl at' bt rt)
+  | .mobius _ _, .ccons (.so2 u1) (.ccons (.rv [_]) .cnil), .ccons (.so2 u2) (.ccons (.rv [_]) .cnil),
+      .ccons (.so2 u) (.ccons (.rv [v]) .cnil) =>
+    if Num.abs (u2 - u1) ≤ Num.pi then
+      .ccons (.so2 u) (.ccons (.rv [if Num.pi < Num.abs (u2 - u) then -v else v]) .cnil)
+    else .ccons (.so2 u) (.ccons (.rv [v]) .cnil)
+  | .wrap s, a, b, r => postMobius s a b r
+  | _, _, _, r => r
+
+/-- `StateSpace::interpolate` of the tree once notes/C07-fix-F159.diff is in: the F61-repaired SO(2) clause and the
+Mobius gluing after the cylinder branch.  Equal to `interpolate` over the reals on in-bounds inputs (`interp_tree_eq`). -/
+def interpolateTree (sp : Space α) (a b : St α) (t : α) : St α :=
+  postMobius sp a b (interpolateFix61 sp a b t)
+
 /-- the same with the SO(2) clause of the code *before* the F4 fix (for the witness theorem and for
 `drv_spaceinterp`'s `old` fields, which let the check tell "tree not yet fixed" from a genuine
 disagreement) -/
